@@ -140,4 +140,12 @@ def catalog():
     s.anon_bits(5, 1, lambda b: (b.scalar("lo", 0, 3), b.scalar("fl", 7, 1, st="Flag")))
     s.virt("t2", Op("+", "tag", "y"))
     ps.append(p)
+
+    # P11: a byte array longer than one line of the shorthand ASCII comment of the text format (64 characters)
+    p = Program("Blob")
+    s = p.struct("Bl")
+    s.scalar("n", 0, 1)
+    s.array("data", 1, 70, ("UInt",), 1)
+    s.scalar("tail", 71, 1, st="Int")
+    ps.append(p)
     return ps
